@@ -16,7 +16,7 @@ class Prop(GraphProp):
             "thorough up to 120) without faults; every outcome is compared with a freshly built undisturbed computation. "
             "non-trivial = at least 3 value-returning requests, at least 2 operation kinds, and a slice/view operation or "
             "an observed recompute-after-eviction; distinct = distinct sha256 of the event log")
-    probes = ["recompute_after_eviction", "eviction_observed", "op_view_create", "op_on_view", "op_array",
+    probes = ["fmt_implicit", "kpm_world", "linop_twin_requested", "internal_requested", "recompute_after_eviction", "eviction_observed", "op_view_create", "op_on_view", "op_array",
               "multi_comp_world", "chain_world", "illposed_world", "illposed_raise", "domain_sparse", "domain_sym",
               "fmt_scalar_idx", "fmt_scalar_vecs", "fmt_dict", "fmt_list", "final_checked"]
     assumptions = ["oracle: a fresh computation of the same world in the same process, walked in ascending order",
